@@ -89,6 +89,8 @@ type Interp struct {
 	onceDone     map[*Value]bool
 	wgCount      map[*Value]int64
 	lastPanicMsg string
+	lastPos      token.Pos
+	noMerge      bool
 }
 
 type intrinsic func(fr *frame, args []Value) Value
@@ -114,6 +116,7 @@ type frame struct {
 	panic     interface{}
 	depth     int
 	curPos    token.Pos
+	phiOv     []Value
 }
 
 func (i *Interp) info(fn *ssa.Function) *fnInfo {
@@ -333,8 +336,43 @@ func visitInstr(fr *frame, instr ssa.Instruction) int {
 			panic(fmt.Sprintf("store to %T", addr))
 		}
 	case *ssa.If:
+		cond := fr.get(instr.Cond)
+		if ct, ok := cond.(*Term); ok && !i.noMerge {
+			if i.ifConvert(fr, ct) {
+				return kJump
+			}
+			// case-list merging: `case a, b, c:` lowers to a chain of test blocks that all jump to
+			// the same body; decide the disjunction once instead of forking per case value
+			cur := fr.block
+			acc := ct
+			T := cur.Succs[0]
+			for {
+				F := cur.Succs[1]
+				ok, c2 := i.pureTestBlock(fr, F, T)
+				if !ok {
+					break
+				}
+				acc = i.tt().Or(acc, c2)
+				cur = F
+			}
+			if cur != fr.block {
+				// the chain may end in a pure block that feeds the same join (last alternative of a || chain)
+				save := fr.block
+				fr.block = cur
+				if i.ifConvert(fr, acc) {
+					return kJump
+				}
+				fr.block = save
+				if i.ex.decide(acc) {
+					fr.prevBlock, fr.block = cur, T
+				} else {
+					fr.prevBlock, fr.block = cur, cur.Succs[1]
+				}
+				return kJump
+			}
+		}
 		succ := 1
-		if i.truth(fr.get(instr.Cond)) {
+		if i.truth(cond) {
 			succ = 0
 		}
 		fr.prevBlock, fr.block = fr.block, fr.block.Succs[succ]
@@ -402,6 +440,207 @@ func visitInstr(fr *frame, instr ssa.Instruction) int {
 		panic(fmt.Sprintf("unexpected instruction: %T", instr))
 	}
 	return kNext
+}
+
+// pureTestBlock reports whether block b (reached on the false edge of a test whose true edge
+// goes to T) consists only of side-effect-free scalar computations followed by an If whose
+// true edge also goes to T, and T has no phis. If so it evaluates b and returns its condition.
+func (i *Interp) pureTestBlock(fr *frame, b, T *ssa.BasicBlock) (bool, *Term) {
+	if len(b.Preds) != 1 || len(b.Instrs) == 0 || len(b.Instrs) > 4 || b == T {
+		return false, nil
+	}
+	if np := fr.info.phis[T]; np != 0 {
+		// allowed when every phi of T receives the same value from b as from b's predecessor
+		pi, bi := -1, -1
+		for k, p := range T.Preds {
+			if p == b.Preds[0] {
+				pi = k
+			}
+			if p == b {
+				bi = k
+			}
+		}
+		if pi < 0 || bi < 0 {
+			return false, nil
+		}
+		for _, ins := range T.Instrs[:np] {
+			phi := ins.(*ssa.Phi)
+			if !sameSSAValue(phi.Edges[pi], phi.Edges[bi]) {
+				return false, nil
+			}
+		}
+	}
+	last, ok := b.Instrs[len(b.Instrs)-1].(*ssa.If)
+	if !ok || b.Succs[0] != T || b.Succs[1] == T {
+		return false, nil
+	}
+	for _, ins := range b.Instrs[:len(b.Instrs)-1] {
+		switch ins := ins.(type) {
+		case *ssa.BinOp:
+			switch ins.Op {
+			case token.EQL, token.NEQ, token.LSS, token.LEQ, token.GTR, token.GEQ, token.ADD, token.SUB, token.AND, token.OR, token.XOR:
+				if _, isInt := intInfo(ins.X.Type()); !isInt {
+					return false, nil
+				}
+			default:
+				return false, nil
+			}
+		case *ssa.Convert:
+			if _, ok := intInfo(ins.X.Type()); !ok {
+				return false, nil
+			}
+			if _, ok := intInfo(ins.Type()); !ok {
+				return false, nil
+			}
+		case *ssa.DebugRef:
+		default:
+			return false, nil
+		}
+	}
+	for _, ins := range b.Instrs[:len(b.Instrs)-1] {
+		visitInstr(fr, ins)
+	}
+	i.ex.steps += int64(len(b.Instrs))
+	switch c := fr.get(last.Cond).(type) {
+	case *Term:
+		return true, c
+	case bool:
+		return true, i.tt().Bool(c)
+	}
+	return false, nil
+}
+
+// pureJumpBlock reports whether b has the single predecessor pred, contains only
+// side-effect-free scalar computations that cannot panic, and ends in a jump.
+func pureJumpBlock(b, pred *ssa.BasicBlock) bool {
+	if len(b.Preds) != 1 || b.Preds[0] != pred || len(b.Instrs) == 0 || len(b.Instrs) > 6 {
+		return false
+	}
+	if _, ok := b.Instrs[len(b.Instrs)-1].(*ssa.Jump); !ok {
+		return false
+	}
+	for _, ins := range b.Instrs[:len(b.Instrs)-1] {
+		switch ins := ins.(type) {
+		case *ssa.BinOp:
+			switch ins.Op {
+			case token.EQL, token.NEQ, token.LSS, token.LEQ, token.GTR, token.GEQ, token.ADD, token.SUB, token.AND, token.OR, token.XOR, token.MUL:
+				_, isInt := intInfo(ins.X.Type())
+				if !isInt && !isBool(ins.X.Type()) {
+					return false
+				}
+			default:
+				return false
+			}
+		case *ssa.UnOp:
+			if ins.Op != token.NOT && ins.Op != token.SUB && ins.Op != token.XOR {
+				return false
+			}
+		case *ssa.Convert:
+			if _, ok := intInfo(ins.X.Type()); !ok {
+				return false
+			}
+			if _, ok := intInfo(ins.Type()); !ok {
+				return false
+			}
+		case *ssa.DebugRef:
+		default:
+			return false
+		}
+	}
+	return true
+}
+
+func predIndexOf(b, pred *ssa.BasicBlock) int {
+	for k, p := range b.Preds {
+		if p == pred {
+			return k
+		}
+	}
+	return -1
+}
+
+// ifConvert turns a triangle or diamond whose arms are pure scalar blocks into
+// ite-terms on the join block's phis (no fork). Go's && and || on scalar
+// comparisons and `x := a; if c { x = b }` have this shape.
+func (i *Interp) ifConvert(fr *frame, cond *Term) bool {
+	cur := fr.block
+	s0, s1 := cur.Succs[0], cur.Succs[1]
+	var D, rT, rF *ssa.BasicBlock // join, arm taken when cond is true / false (nil = direct edge)
+	switch {
+	case pureJumpBlock(s0, cur) && s0.Succs[0] == s1:
+		D, rT = s1, s0
+	case pureJumpBlock(s1, cur) && s1.Succs[0] == s0:
+		D, rF = s0, s1
+	case pureJumpBlock(s0, cur) && pureJumpBlock(s1, cur) && s0.Succs[0] == s1.Succs[0]:
+		D, rT, rF = s0.Succs[0], s0, s1
+	default:
+		return false
+	}
+	np := fr.info.phis[D]
+	if np == 0 || D == cur {
+		return false
+	}
+	predT, predF := cur, cur
+	if rT != nil {
+		predT = rT
+	}
+	if rF != nil {
+		predF = rF
+	}
+	iT, iF := predIndexOf(D, predT), predIndexOf(D, predF)
+	if iT < 0 || iF < 0 || iT == iF {
+		return false
+	}
+	// all phis must be scalar (bool / integer)
+	for _, ins := range D.Instrs[:np] {
+		phi := ins.(*ssa.Phi)
+		if _, ok := intInfo(phi.Type()); !ok && !isBool(phi.Type()) {
+			return false
+		}
+	}
+	n := 0
+	if rT != nil {
+		for _, ins := range rT.Instrs[:len(rT.Instrs)-1] {
+			visitInstr(fr, ins)
+			n++
+		}
+	}
+	if rF != nil {
+		for _, ins := range rF.Instrs[:len(rF.Instrs)-1] {
+			visitInstr(fr, ins)
+			n++
+		}
+	}
+	i.ex.steps += int64(n)
+	tt := i.tt()
+	ov := make([]Value, np)
+	for k, ins := range D.Instrs[:np] {
+		phi := ins.(*ssa.Phi)
+		vT, vF := fr.get(phi.Edges[iT]), fr.get(phi.Edges[iF])
+		if ik, ok := intInfo(phi.Type()); ok {
+			ov[k] = i.intVal(ik, tt.Ite(cond, i.toTerm(vT, ik.w), i.toTerm(vF, ik.w)))
+		} else {
+			ov[k] = boolVal(tt.Ite(cond, i.toTerm(vT, 0), i.toTerm(vF, 0)))
+		}
+	}
+	fr.phiOv = ov
+	fr.prevBlock, fr.block = predT, D
+	return true
+}
+
+func sameSSAValue(a, b ssa.Value) bool {
+	if a == b {
+		return true
+	}
+	ca, ok1 := a.(*ssa.Const)
+	cb, ok2 := b.(*ssa.Const)
+	if ok1 && ok2 && types.Identical(ca.Type(), cb.Type()) {
+		if ca.Value == nil || cb.Value == nil {
+			return ca.Value == nil && cb.Value == nil
+		}
+		return constant.Compare(ca.Value, token.EQL, cb.Value)
+	}
+	return false
 }
 
 // truth turns a boolean value into a concrete branch decision (forking if symbolic).
@@ -566,7 +805,12 @@ func runFrame(fr *frame) {
 		}
 		instrs := fr.block.Instrs
 		np := fr.info.phis[fr.block]
-		if np > 0 {
+		if np > 0 && fr.phiOv != nil {
+			for k, phi := range instrs[:np] {
+				fr.set(phi.(*ssa.Phi), fr.phiOv[k])
+			}
+			fr.phiOv = nil
+		} else if np > 0 {
 			predIndex := -1
 			for k, p := range fr.block.Preds {
 				if p == fr.prevBlock {
@@ -591,6 +835,7 @@ func runFrame(fr *frame) {
 		for _, instr := range instrs[np:] {
 			if p := instr.Pos(); p != token.NoPos {
 				fr.curPos = p
+				i.lastPos = p
 			}
 			cont = visitInstr(fr, instr)
 			if cont != kNext {
